@@ -187,6 +187,14 @@ class BoundTemplate:
                     # Never just reported, whatever the mode. A template that calls
                     # itself twice would carry on with its second call at every level.
                     raise
+                except RecursionError as err:
+                    # Deep enough nesting of blocks and partials runs out of stack
+                    # before the context depth limit is reached. It is the same
+                    # condition, and must stop the render in the same way.
+                    raise ContextDepthError(
+                        "maximum recursion depth reached, possible recursive render",
+                        token=node.token,
+                    ) from err
                 except LiquidError as err:
                     # Raise or warn according to the current mode.
                     self.env.error(err, token=node.token)
@@ -226,6 +234,14 @@ class BoundTemplate:
                     # Never just reported, whatever the mode. A template that calls
                     # itself twice would carry on with its second call at every level.
                     raise
+                except RecursionError as err:
+                    # Deep enough nesting of blocks and partials runs out of stack
+                    # before the context depth limit is reached. It is the same
+                    # condition, and must stop the render in the same way.
+                    raise ContextDepthError(
+                        "maximum recursion depth reached, possible recursive render",
+                        token=node.token,
+                    ) from err
                 except LiquidError as err:
                     # Raise or warn according to the current mode.
                     self.env.error(err, token=node.token)
